@@ -4,6 +4,7 @@ package main
 import (
 	"bytes"
 	"fmt"
+	"github.com/theparanoids/ysshra/verifharness/lib/frames"
 	"math/rand"
 	"sort"
 	"strings"
@@ -58,7 +59,7 @@ func step(st state, i in, o out) (bool, state) {
 		return false, st
 	}
 	switch i.Op {
-	case "add":
+	case "add", "raw-add": // raw-add: the same add-identity request, relayed as raw bytes
 		if st.Locked {
 			return o.Err, st
 		}
@@ -198,7 +199,7 @@ func pendingOut() out { return out{Hung: true} }
 
 func main() {
 	ev.MainIsolated("C11", "exploration", 90*time.Minute, func(r *ev.Run) {
-		r.Rule("barrier-started rounds: 2..16 goroutines share one shim (built with shimagent.New in both upstream modes, or reached through real yubiagent.ServeAgent connections and clients), each issues up to 6 operations from {list, signers, sign, sign with hardware cert, add, remove, remove-all, add-hardware-cert, lock, unlock, extension, raw forward, sign through a hardware-certificate signer handed out by Signers() before the barrier}; between construction and the barrier a feeder puts already-expired certificates and fresh YSSHCA certificates directly into the keyring so that purging and cache fills happen during the concurrent phase; the underlying agent delays replies by 0..2 ms (seeded). Monitors: race detector (reports touching repository code), pipelined requests on the single upstream connection, reply/request tag matching and signature verification, porcupine linearizability of the recorded history against a sequential model (state = tracked plain keys x tracked hardware certificates x lock), completion watchdog. distinct_nontrivial = distinct rounds (by recorded history) in which at least two operations of different clients overlapped in time")
+		r.Rule("barrier-started rounds: 2..16 goroutines share one shim (built with shimagent.New in both upstream modes, or reached through real yubiagent.ServeAgent connections and clients), each issues up to 6 operations from {list, signers, sign, sign with hardware cert, add, remove, remove-all, add-hardware-cert, lock, unlock, extension, raw forward, an add-identity request relayed as raw bytes, sign through a hardware-certificate signer handed out by Signers() before the barrier}; between construction and the barrier a feeder puts already-expired certificates and fresh YSSHCA certificates directly into the keyring so that purging and cache fills happen during the concurrent phase; the underlying agent delays replies by 0..2 ms (seeded). Monitors: race detector (reports touching repository code), pipelined requests on the single upstream connection, reply/request tag matching and signature verification, porcupine linearizability of the recorded history against a sequential model (state = tracked plain keys x tracked hardware certificates x lock), completion watchdog. distinct_nontrivial = distinct rounds (by recorded history) in which at least two operations of different clients overlapped in time")
 		r.Assume("sampled schedules only", "the concurrent phase never removes a plain key that backs a tracked hardware certificate except through remove-all, and never locks the keyring directly, so the model stays deterministic", "signers for identities of the underlying agent (which talk to it directly by design) are not used concurrently; hardware-certificate signers are")
 		gen.Pool()
 		rounds := r.Pick(300, 6000)
@@ -429,7 +430,7 @@ func runRound(r *ev.Run, c *ev.Case, round int, mode string, g int) *roundResult
 	kinds := []struct {
 		op string
 		w  int
-	}{{"list", 10}, {"signers", 8}, {"sign", 8}, {"sign-hard", 6}, {"add", 10}, {"remove", 5}, {"remove-hard", 3}, {"remove-all", 1}, {"add-hard-cert", 10}, {"lock", 1}, {"unlock", 2}, {"extension", 5}, {"forward", 5}, {"signer-sign", 6}}
+	}{{"list", 10}, {"signers", 8}, {"sign", 8}, {"sign-hard", 6}, {"add", 10}, {"remove", 5}, {"remove-hard", 3}, {"remove-all", 1}, {"add-hard-cert", 10}, {"lock", 1}, {"unlock", 2}, {"extension", 5}, {"forward", 5}, {"signer-sign", 6}, {"raw-add", 4}}
 	tw := 0
 	for _, k := range kinds {
 		tw += k.w
@@ -452,7 +453,7 @@ func runRound(r *ev.Run, c *ev.Case, round int, mode string, g int) *roundResult
 			}
 			i := in{Op: op, Served: mode == "served"}
 			switch op {
-			case "add", "sign":
+			case "add", "sign", "raw-add":
 				i.Arg = rng.Intn(nKeys)
 			case "remove":
 				i.Arg = 2 + rng.Intn(2)
@@ -462,6 +463,15 @@ func runRound(r *ev.Run, c *ev.Case, round int, mode string, g int) *roundResult
 				i.Pass = byte(rng.Intn(2))
 			}
 			plans[ci] = append(plans[ci], i)
+		}
+	}
+	// now and then one client walks a path that depends on what the shim remembers of the underlying agent: it lists,
+	// relays a raw add-identity for a key the agent does not hold yet, and asks for that key's hardware certificate
+	for j := 0; j < nHard; j++ {
+		if init.U&(1<<uint(j)) == 0 && rng.Intn(2) == 0 && len(plans) > 0 {
+			sv := mode == "served"
+			plans[0] = append([]in{{Op: "list", Served: sv}, {Op: "raw-add", Arg: j, Served: sv}, {Op: "add-hard-cert", Arg: j, Served: sv}}, plans[0]...)
+			break
 		}
 	}
 	start := time.Now()
@@ -498,6 +508,12 @@ func runRound(r *ev.Run, c *ev.Case, round int, mode string, g int) *roundResult
 		switch i.Op {
 		case "add":
 			o.Err = a.Add(agent.AddedKey{PrivateKey: mat.keys[i.Arg].Priv, Comment: fmt.Sprintf("k%d", i.Arg)}) != nil
+		case "raw-add":
+			fr := frames.Captured(func(x agent.ExtendedAgent) {
+				x.Add(agent.AddedKey{PrivateKey: mat.keys[i.Arg].Priv, Comment: fmt.Sprintf("k%d", i.Arg)})
+			})
+			resp, ferr := a.Forward(fr[0])
+			o.Err = ferr != nil || len(resp) != 1 || resp[0] != 6
 		case "remove":
 			o.Err = a.Remove(mat.keys[i.Arg].Pub) != nil
 		case "remove-hard":
